@@ -33,6 +33,7 @@ func fatal(err error) {
 
 var runners = map[string]func(Config){
 	"C02": runC02,
+	"C03": runC03,
 	"C04": runC04,
 	"C13": runC13,
 	"C17": runC17,
